@@ -1,7 +1,7 @@
 """C13 - target transformations are undone exactly by their reciprocal."""
 from vf import loader
 from vf.core import Clause, Outcome, Violation, require
-from vf.estimators import CentroidClassifier
+from vf.estimators import CentroidClassifier, KwargsClassifier, KwargsRegressor
 
 import numpy as np
 from hypothesis import strategies as st
@@ -239,7 +239,8 @@ def check_regressor(case):
     n = len(X)
     y = _y_from_unit(name, case["units"][:n])
     Q = np.vstack([np.array(case["Q"], dtype=np.float64).reshape(-1, X.shape[1]), X[:3]])
-    reg = LinearRegression() if case["reg"] == "linear" else DecisionTreeRegressor(max_depth=3, random_state=0)
+    # 'kwargs': a duck-typed regressor whose fit takes the weights through **kwargs (nothing named sample_weight in its signature)
+    reg = {"linear": LinearRegression(), "tree": DecisionTreeRegressor(max_depth=3, random_state=0), "kwargs": KwargsRegressor(tag=1)}[case["reg"]]
     facts = dict(name=name, reg=case["reg"])
     m = _tp.TransformedTargetRegressor2(regressor=reg, transformer=name)
     r = m.fit(X, y)
@@ -282,7 +283,7 @@ def _reg_cases(draw, tier="quick"):
                 units=[draw(st.integers(0, 10**6)) / 1e6 for _ in range(20)],
                 X=[[draw(st.integers(-40, 40)) / 4.0 for _ in range(d)] for _ in range(n)],
                 Q=[[draw(st.integers(-40, 40)) / 4.0 for _ in range(d)] for _ in range(draw(st.integers(1, 6)))],
-                reg=draw(st.sampled_from(["linear", "tree"])))
+                reg=draw(st.sampled_from(["linear", "tree", "kwargs"])))
 
 
 # ------------------------------------------------------------------------- classifier
@@ -292,15 +293,19 @@ def check_classifier(case):
     X = np.array(case["X"], dtype=np.float64)[:n]
     Q = np.vstack([np.array(case["Q"], dtype=np.float64).reshape(-1, X.shape[1]), X[:4]])
     lk = case["learner"]
-    learner = {"centroid": CentroidClassifier(), "gnb": GaussianNB(), "logreg": LogisticRegression(max_iter=5000, C=1.0, tol=1e-10)}[lk]
-    tol = {"centroid": 1e-9, "gnb": 1e-6, "logreg": 1e-3}[lk]
+    learner = {"centroid": CentroidClassifier(), "gnb": GaussianNB(), "logreg": LogisticRegression(max_iter=5000, C=1.0, tol=1e-10),
+               "kwargs-centroid": KwargsClassifier()}[lk]
+    tol = {"centroid": 1e-9, "gnb": 1e-6, "logreg": 1e-3, "kwargs-centroid": 1e-9}[lk]
+    sw = None if not case.get("weights") else np.array(case["weights"], dtype=np.float64)[:n]
+    kw = {} if sw is None else dict(sample_weight=sw)
     facts = dict(learner=lk, label_kind=case["label_kind"], transformer=case["transformer"])
     tr = "permute" if case["transformer"] == "permute" else _fct.PermutationReciprocalTransformer(random_state=case["random_state"])
     np.random.seed(case["seed"])
     m = _tp.TransformedTargetClassifier2(classifier=learner, transformer=tr)
-    r = m.fit(X, y)
+    facts["weights"] = sw is not None
+    r = m.fit(X, y, **kw)
     require(r is m, "fit:not-self", "", facts)
-    plain = clone(learner).fit(X, y)
+    plain = clone(learner).fit(X, y, **kw)
     labels = sorted(set(y.tolist()))
     classes = list(np.asarray(m.classes_).tolist())
     require(sorted(classes) == labels, "classes_:not-the-label-set", "%r vs labels %r" % (classes, labels), facts)
@@ -330,7 +335,8 @@ def check_classifier(case):
     clear = clear & ~np.isnan(PP).any(axis=1)
     require(bool(np.all(pred[clear] == ppred[clear])), "predict:differs-from-plain", "%r vs %r" % (pred[clear].tolist()[:6], ppred[clear].tolist()[:6]), facts)
     return Outcome([lk, case["label_kind"], case["transformer"], "identity" if identity else "non-identity",
-                    "code-order==label-order" if sorted_identity else "code-order!=label-order", "classes=%d" % len(labels)], not sorted_identity)
+                    "code-order==label-order" if sorted_identity else "code-order!=label-order", "classes=%d" % len(labels),
+                    "weights" if sw is not None else "no-weights"], not sorted_identity)
 
 
 @st.composite
@@ -343,7 +349,8 @@ def _clf_cases(draw, tier="quick"):
     centres = [[draw(st.integers(-20, 20)) / 2.0 for _ in range(d)] for _ in range(k)]
     X = [[centres[zi][j] + draw(st.integers(-8, 8)) / 8.0 for j in range(d)] for zi in base["z"]]
     base.update(X=X, Q=[[draw(st.integers(-24, 24)) / 2.0 for _ in range(d)] for _ in range(draw(st.integers(1, 8)))],
-                learner=draw(st.sampled_from(["centroid", "centroid", "gnb", "logreg"])),
+                learner=draw(st.sampled_from(["centroid", "centroid", "gnb", "logreg", "kwargs-centroid"])),
+                weights=draw(st.one_of(st.none(), st.lists(st.integers(1, 12).map(lambda v: v / 2.0), min_size=20, max_size=20))),
                 transformer=draw(st.sampled_from(["permute", "object"])))
     return base
 
